@@ -102,6 +102,58 @@ def observe(sel, canon_out, sts):
     return [recs[l['id']] for l in sel]
 
 
+def history_events(lines, outs, canon_out, recs, rnd, per_pred=2):
+    """the canonical spelling of a line assembled right AFTER another accepted line that spells one of its memory operands
+    with the identical text (lea / push / prefetch / an SSE form ... before an instruction whose encoding depends on that
+    operand's size), each pair in a process of its own: the candidate set is a function of the line, not of what the
+    assembler parsed before.  One predecessor line per (mnemonic, operand text), `per_pred` followers each, preferring
+    followers in which no register fixes the operand size.  The event joins the follower's record (action After)."""
+    ok = [l for l, o in zip(lines, outs) if o['st'] == 'list' and o['c'] and l['plaus'] == '']
+    by_text = collections.defaultdict(list)
+    for l in ok:
+        st = l['intel']['st']
+        for o, lo in zip(l['ins']['ops'], l['intel']['ops']):
+            if o['k'] == 'mem':
+                by_text[asm_text.render_op(lo, st)].append(l)
+    byid = {r['id']: r for r in recs}
+    pairs = []
+    for text in sorted(by_text):
+        ls = by_text[text]
+        preds = {}
+        for l in ls:
+            preds.setdefault(l['ins']['mn'], l)
+        for mn in sorted(preds):
+            a = preds[mn]
+            fol = [l for l in ls if l['ins']['mn'] != mn]
+            if not fol:
+                continue
+            rnd.shuffle(fol)
+            fol.sort(key=lambda l: sum(1 for o in l['ins']['ops'] if o['k'] == 'reg'))     # stable: size-sensitive forms first
+            seen = set()
+            for b in fol:
+                if b['ins']['mn'] in seen:
+                    continue
+                seen.add(b['ins']['mn'])
+                pairs.append((a, b))
+                if len(seen) >= per_pred:
+                    break
+    items = [[('intel', asm_text.render(a['intel'])), ('intel', asm_text.render(b['intel']))] for a, b in pairs]
+    res = asmlib.pmap(asmlib.asm_after, items, chunk=50)
+    new = []
+    for (a, b), it, o in zip(pairs, items, res):
+        r = byid.get(b['id'])
+        if r is None:
+            r = {'id': b['id'], 'evs': [{'sid': 0, 'syn': 'intel', 'st': canon_out[b['id']]['st'], 'c': canon_out[b['id']]['c']}],
+                 'texts': [asm_text.render(b['intel'])], 'acts': [[]], 'exc': [canon_out[b['id']].get('exc')]}
+            byid[b['id']] = r
+            new.append((b, r))
+        r['evs'].append({'sid': len(r['evs']), 'syn': 'intel', 'st': o['st'], 'c': o['c']})
+        r['texts'].append(it[0][1] + ' ; ' + it[1][1])
+        r['acts'].append(['After=' + a['ins']['mn']])
+        r['exc'].append(o.get('exc'))
+    return len(pairs), new
+
+
 def strip(r):
     return {'id': r['id'], 'evs': r['evs']}
 
@@ -119,6 +171,8 @@ def report(chk, sel, recs, verdicts, confirm=True):
             if len(acts) > 1 and any(a in single for a in acts):
                 continue                      # subsumed by a failing single-action spelling of the same line
             fails.append((r, sid, f, acts))
+    hist = [x for x in fails if x[3] and x[3][0].startswith('After=')]     # order dependence is what these events are about
+    fails = [x for x in fails if not (x[3] and x[3][0].startswith('After='))]
     if confirm and fails:
         # confirm in a fresh interpreter that the difference does not depend on the order of calls
         items = []
@@ -133,13 +187,15 @@ def report(chk, sel, recs, verdicts, confirm=True):
             else:
                 chk.cov['order_dependent'] = chk.cov.get('order_dependent', 0) + 1
         fails = keep + fails[3000:]
-    for r, sid, f, acts in fails:
+    for r, sid, f, acts in fails + hist:
         ins = ins_of[r['id']]
         act = '+'.join(sorted(set(a.split('=')[0] for a in acts)))
         e = r['evs'][sid]
         how = e['st'] if e['st'] != 'list' else ('empty' if not e['c'] else 'differs')
         site = (r['exc'][sid] or {}).get('func', '') if how in ('reject', 'internal') else ''
-        shp = act_shape(ins, acts[0]) if len(acts) == 1 else asmlib.shape(ins)
+        shp = act_shape(ins, acts[0]) if len(acts) == 1 and not acts[0].startswith('After=') else asmlib.shape(ins)
+        if acts[0].startswith('After='):
+            shp = acts[0][6:] + ' ; ' + ins['mn'] + ' ' + shp          # predecessor mnemonic ; follower
         if act == 'syn' and site == 'mnemo_from_att':
             shp = ins['mn']                   # a mnemonic missing from the AT&T tables: the operands do not matter
         key = {'clause': f['clause'], 'act': act, 'shape': shp, 'how': how, 'site': site}
@@ -164,6 +220,11 @@ def run(tier, chk):
     rest = [l for l, o in zip(lines, outs) if o['st'] == 'list' and o['c'] and l['plaus'] == '' and 'att' in l and l['id'] not in insel]
     recs += observe(rest, canon_out, [{'lid': l['id'], 'pres': dict(PRES0, syn='att', pct=True), 'line': l['att']} for l in rest])
     sel = sel + rest
+    # history: the canonical spelling right after another line with the same operand text, each pair in a clean process
+    npairs, newrecs = history_events(lines, outs, canon_out, recs, rnd, 2 if quick else 6)
+    sel = sel + [b for b, r in newrecs]
+    recs += [r for b, r in newrecs]
+    chk.cov['history_pairs'] = npairs
     nsp = sum(len(x['evs']) - 1 for x in recs)
     chk.cov['evaluations'] = nsp + len(lines)
     chk.cov['distinct_nontrivial'] = nsp
